@@ -341,6 +341,41 @@ def _task_reentrant(task):
     return res
 
 
+def _task_joined_descriptors(_):
+    """messages that carry descriptors, their first bytes in the read that
+    completes the handshake, the descriptors announced before that read
+    (what a UNIX transport does for one sendmsg): content as sent"""
+    from mcx.checks import c20
+    res = core.Result()
+    for idxs in ((1,), (2,), (5,), (1, 3), (7, 1), (8, 1), (1, 8, 2)):
+        msgs = c20._mk(idxs)
+        nf = sum(len(f) for (_, _, f) in msgs)
+        first = len(msgs[0][2])
+        for little in (True, False):
+            for early in sorted({first, nf, 1} - {0}):
+                if early > nf:
+                    continue
+                for joined in (True, False):
+                    order = tuple(['F'] * nf + ['C'])
+                    found = c20.receiver_case(idxs, (), order, little, None,
+                                              early=early, joined=joined)
+                    res.count('states')
+                    res.count('transitions')
+                    res.count('evaluations')
+                    res.count('traces')
+                    res.count('nontrivial')
+                    for tag, what in found:
+                        res.violation(
+                            '%s/joined-descriptors/%s' % (PROP, tag),
+                            'messages %r, %d descriptor(s) announced before '
+                            'the read that completes the handshake%s: %s'
+                            % ([c20.BODIES[i][0] for i in idxs], early,
+                               ' and carries the first message bytes'
+                               if joined else '', what),
+                            {'fdjoin': True}, size=len(idxs))
+    return res
+
+
 def _task_two_connections(task):
     """two connections in one process, each stream cut once, their reads
     interleaved in every order: a connection receives exactly its own
@@ -506,6 +541,7 @@ def run(ctx):
                                             'client-unix')])
     ctx.map(_task_two_connections, [(q, i, n) for i in range(n)])
     ctx.map(_task_reentrant, [(q, i, n) for i in range(n)])
+    ctx.map(_task_joined_descriptors, [0])
     co = [(3000, False), (3000, True), (1200, False)]
     if not q:
         co += [(20000, False), (20000, True)]
@@ -513,6 +549,9 @@ def run(ctx):
 
 
 def replay(data):
+    if 'fdjoin' in data:
+        res = _task_joined_descriptors(0)
+        return [(s, v['what']) for s, v in res.violations.items()]
     if 'two' in data:
         res = _task_two_connections((True, 0, 1))
         return [(s, v['what']) for s, v in res.violations.items()]
